@@ -511,6 +511,16 @@ func retainedEvents(full bool) []event {
 		h.w.Run(h.all()...)
 		h.verify(want, "will")
 	}})
+	// a retained will with an empty payload clears the retained message of its topic, like any such publish
+	evs = append(evs, event{"W:dies-with-will(a,retain,empty)", func(h *hist) {
+		h.connect("W", true, &packet.Message{Topic: "a", Payload: []byte{}, QOS: 0, Retain: true})
+		h.w.Run(h.all()...)
+		h.cl["W"].Drop()
+		h.m.online["W"] = false
+		want := h.m.publish("a", "", 0, true)
+		h.w.Run(h.all()...)
+		h.verify(want, "will")
+	}})
 	for _, q := range qosAll {
 		q := q
 		// a client with a retained will dies: the will counts as a publish
